@@ -132,7 +132,7 @@ def gen_base(rng, tier: str, faulty: bool) -> dict:
             ops.append({"op": "dispose", "of": j, "how": _gen_how(rng)})
         op = {"op": "request", "id": rid, "method": rng.choice(["GET", "GET", "GET", "HEAD", "POST", "PUT"]), "path": f"/{rid}"}
         if op["method"] in ("POST", "PUT"):
-            op["body"] = {"kind": rng.choice(["bytes", "bytesio"]), "size": rng.choice([0, 10, 20000])}
+            op["body"] = {"kind": rng.choice(["bytes", "bytesio", "bytes", "bytesio", "notell"]), "size": rng.choice([0, 10, 20000])}
         if block and len(live) >= maxsize:
             op["pool_timeout"] = rng.choice([0, 0.5])
         elif rng.random() < 0.1:
@@ -153,6 +153,11 @@ def gen_base(rng, tier: str, faulty: bool) -> dict:
         sc["seg"] = {"mode": "whole"}
         sc["connects"] = []
     if rng.random() < 0.25:
+        sc["close_without_probe"] = True
+    if rng.random() < 0.1:
+        # close() in the middle of the history, before the disposals that follow it (later requests then fail with ClosedPoolError)
+        req_pos = [i for i, o in enumerate(ops) if o["op"] == "request"]
+        ops.insert(rng.randrange(req_pos[0] + 1, len(ops) + 1), {"op": "close_pool"})
         sc["close_without_probe"] = True
     if rng.random() < 0.3:
         sc["close_in_with"] = True  # the pool is closed by leaving a `with pool:` block in which an interrupt is raised
@@ -346,6 +351,10 @@ def run(sc: dict) -> Result:
                 kind = op["op"]
                 if kind == "advance":
                     w.advance(op["d"])
+                elif kind == "close_pool":
+                    # the pool is closed while responses may still be out: what they hold must be closed when they are finished
+                    guarded("pool.close", pool.close)
+                    res.probes["pool_closed_with_responses_out" if live else "pool_closed_mid_history"] += 1
                 elif kind == "request":
                     if block and len(live) >= N_ and op.get("pool_timeout") is None:
                         # the caller itself holds every slot and would wait forever: not a history the property speaks about
@@ -390,7 +399,10 @@ def run(sc: dict) -> Result:
                         guarded("dispose:drop", _drop)
                     else:
                         guarded("dispose:" + how, lambda: _dispose(r, how))
-                    _note_caller_abandoned(r, caller_abandoned)
+                    if how in CLOSE_ONLY:
+                        # (only these leave the response in possession of its connection by the caller's own choice; after a
+                        #  disposal that releases, or reads to the end, the response must not hold an open socket any more)
+                        _note_caller_abandoned(r, caller_abandoned)
                     r = None
                     check_open("dispose")
             # everything the caller still holds is now read and released
